@@ -313,9 +313,8 @@ def tasks(tier):
          ('contracts.c03', 'task_concrete', {})]
     # line of three cells (n = 5*2+1): every row its own task (about 13 s each)
     t += [('contracts.c03', 'task_solve_n', dict(n=11, rows=[i])) for i in range(11)]
-    if tier != 'quick':
-        # lines of four and five cells
-        t += [('contracts.c03', 'task_solve_n', dict(n=n, rows=[i])) for n in (16, 21) for i in range(n)]
+    # (lines of four and five cells, n = 16 and 21, used to be part of the thorough tier: since core.solve is proved for every n by loop invariants
+    # (c03_solve) they added nothing, and their queries, minutes each, timed out when all cores were busy -- removed so that verdicts do not flip)
     from . import c03_lines, c03_dispatch, c03_solve, c03_lean
     t += c03_solve.tasks(tier)
     t += c03_lean.tasks(tier)
